@@ -454,9 +454,19 @@ def reser_ops(rng, pkt_ops, impl, limit):
         out.append(f"reser {link} {dmg.hex()}")
         # (bit flips in PPPoE tags make the parser load an out-of-range TagTypes enum value: a C01 matter)
         if rng.random() < 0.5 and len(b) > 0 and not any(k == "pppoe" for k, _, _ in layers):
+            # not inside IP / TCP option areas: option kinds whose size and writer disagree in libtins (0x80/0x81 in IP,
+            # empty kinds > 1 in TCP) are C02's findings and make the re-serialisation overlap its own payload
+            banned, off = set(), 0
+            for k, h, t in layers:
+                if k in ("ip", "tcp"):
+                    banned.update(range(off + 20, off + int(h)))
+                    banned.add(off if k == "ip" else off + 12)          # and not the header-length nibble itself
+                off += int(h)
             fl = bytearray(b)
             for _ in range(rng.randint(1, 3)):
-                fl[rng.randrange(len(fl))] ^= 1 << rng.randrange(8)
+                pos = rng.randrange(len(fl))
+                if pos not in banned:
+                    fl[pos] ^= 1 << rng.randrange(8)
             out.append(f"reser {link} {fl.hex()}")
     return out
 
@@ -527,13 +537,13 @@ def run(chk):
     quick = chk.tier == "quick"
     stats = corr.collections.Counter()
     # 1. checksum helpers, CRC, pseudo headers: implementation vs model vs RFC definitions
-    ops = gen_basic_ops(rng, 2500 if quick else 30000, 9000 if quick else 65535)
+    ops = gen_basic_ops(rng, 8000 if quick else 40000, 9000 if quick else 65535)
     if not quick:
         ops += ["sum " + hx(bytes([0xff]) * n) for n in (65534, 65535, 131070, 131071)]
     stats += corr.correspond(chk, AREA, exe, ops, case_start=CASE_START, classify=classify, sig_of=sig_of,
                              nontrivial=nontrivial)
     # 2. API-built packets: dissector oracle + libpcap predicates (+ model for the modelled stacks)
-    pops = gen_packet_ops(rng, 1500 if quick else 25000, 1400 if quick else 4000, chk.tier)
+    pops = gen_packet_ops(rng, 8000 if quick else 40000, 1400 if quick else 4000, chk.tier)
     if not quick:
         pops += gen_packet_ops(rng, 60, 65000, chk.tier)
     modelled = [o for o in pops if o.startswith("pkt ") and is_modelled(o)]
@@ -545,7 +555,7 @@ def run(chk):
     # 3. parsed packets: serialisations (intact, with damaged checksums, with bit flips) parsed and serialised again
     pk = [o for o in pops if o.startswith("pkt ")]
     impl, _ = core.run_harness_lines(exe, (), pk, CASE_START)
-    rops = reser_ops(rng, pk, impl, 500 if quick else 6000)
+    rops = reser_ops(rng, pk, impl, 2500 if quick else 10000)
     stats += corr.correspond(chk, AREA, exe, rops, case_start=CASE_START, classify=classify, sig_of=sig_of,
                              model=False, nontrivial=nontrivial)
     for p in problems:
